@@ -846,4 +846,253 @@ theorem boolLike_num (v : Num) : boolLike (.num v) = .ok (condOpt (numCond v)) :
   simp only [boolLike, numCond]
   cases cmpEq v (.int 1) <;> cases cmpEq v (.int 0) <;> rfl
 
+/-! ### `median`: insertion by key = the array fragment's stable insertion sort -/
+
+/-- **Table fact.** `median` on an array reaches `array_median`. -/
+theorem median_table :
+    (resolveDesc "median" [cArr] []).toOption = some (chP [tArray] "median|(Array)|ka.functions.array_median" .arrMedian) := by
+  decide +kernel
+
+/-- the order `ka_cmp` sorts by: exact value (Python compares int / Fraction / float exactly) -/
+def leNum (a b : Num) : Prop := a.toRat ≤ b.toRat
+
+theorem insertSorted_perm (x : Num) (ys : List Num) : (Arr.insertSorted x ys).Perm (x :: ys) := by
+  induction ys with
+  | nil => exact List.Perm.refl _
+  | cons y ys ih =>
+    simp only [Arr.insertSorted]
+    split
+    · exact List.Perm.refl _
+    · exact (List.Perm.cons y ih).trans (List.Perm.swap x y ys)
+
+theorem insertSorted_sorted (x : Num) (ys : List Num) (h : ys.Pairwise leNum) :
+    (Arr.insertSorted x ys).Pairwise leNum := by
+  induction ys with
+  | nil => simp [Arr.insertSorted]
+  | cons y ys ih =>
+    simp only [Arr.insertSorted]
+    rw [List.pairwise_cons] at h
+    split
+    · rename_i hlt
+      have hlt' : x.toRat < y.toRat := by simpa [cmpLt] using hlt
+      rw [List.pairwise_cons]
+      refine ⟨?_, List.pairwise_cons.mpr h⟩
+      intro z hz
+      rcases List.mem_cons.mp hz with rfl | hz'
+      · exact le_of_lt hlt'
+      · exact le_trans (le_of_lt hlt') (h.1 z hz')
+    · rename_i hge
+      have hge' : ¬ x.toRat < y.toRat := by simpa [cmpLt] using hge
+      rw [List.pairwise_cons]
+      refine ⟨?_, ih h.2⟩
+      intro z hz
+      have := (insertSorted_perm x ys).mem_iff.mp hz
+      rcases List.mem_cons.mp this with rfl | hz'
+      · exact not_lt.mp hge'
+      · exact h.1 z hz'
+
+/-- **insertion sort by key is a sorted permutation**, for every kind of number (floats included:
+    the order is the exact value) -/
+theorem sortNums_perm_sorted (xs : List Num) : (Arr.sortNums xs).Perm xs ∧ (Arr.sortNums xs).Pairwise leNum := by
+  unfold Arr.sortNums
+  have : ∀ (acc : List Num), acc.Pairwise leNum →
+      (xs.foldl (fun acc x => Arr.insertSorted x acc) acc).Perm (acc ++ xs) ∧
+      (xs.foldl (fun acc x => Arr.insertSorted x acc) acc).Pairwise leNum := by
+    induction xs with
+    | nil => intro acc h; simpa using h
+    | cons x t ih =>
+      intro acc h
+      simp only [List.foldl_cons]
+      obtain ⟨hp, hs⟩ := ih (Arr.insertSorted x acc) (insertSorted_sorted x acc h)
+      refine ⟨hp.trans ?_, hs⟩
+      have h1 : (Arr.insertSorted x acc ++ t).Perm ((x :: acc) ++ t) := List.Perm.append_right t (insertSorted_perm x acc)
+      refine h1.trans ?_
+      simp only [List.cons_append]
+      exact (List.perm_middle (l₁ := acc) (a := x) (l₂ := t)).symm
+  simpa using this [] List.Pairwise.nil
+
+/-- **any two sorted permutations agree in value position by position** (the order is a total preorder
+    whose equivalence is "same exact value"): whatever correct sort the code uses, the element at each
+    index — in particular the middle one(s) — has the same value; only its KIND (1/2 vs 0.5) can depend
+    on the algorithm, and only among elements of equal value. -/
+theorem sorted_perm_values (s t : List Num) (hp : s.Perm t) (hs : s.Pairwise leNum) (ht : t.Pairwise leNum) :
+    s.map toRat = t.map toRat := by
+  apply List.Perm.eq_of_pairwise (le := fun a b : Rat => a ≤ b)
+  · intro a b _ _ h1 h2; exact le_antisymm h1 h2
+  · exact List.pairwise_map.mpr hs
+  · exact List.pairwise_map.mpr ht
+  · exact hp.map _
+
+/-- … so on arrays of stored EXACT numbers (value determines the stored number) the sorted array is
+    the same list whatever the algorithm -/
+theorem sorted_perm_unique_exact (s t : List Num) (hp : s.Perm t) (hs : s.Pairwise leNum) (ht : t.Pairwise leNum)
+    (hex : ∀ x ∈ t, ∃ q, x = canon q) : s = t := by
+  have hv := sorted_perm_values s t hp hs ht
+  have hcs : ∀ x ∈ s, canon x.toRat = x := by
+    intro x hx
+    obtain ⟨q, rfl⟩ := hex x (hp.mem_iff.mp hx)
+    rw [toRat_canon]
+  have hct : ∀ x ∈ t, canon x.toRat = x := by
+    intro x hx
+    obtain ⟨q, rfl⟩ := hex x hx
+    rw [toRat_canon]
+  have hm : ∀ l : List Num, (∀ x ∈ l, canon x.toRat = x) → (l.map toRat).map canon = l := by
+    intro l
+    induction l with
+    | nil => intro _; rfl
+    | cons x r ih =>
+      intro h
+      simp only [List.map_cons, h x List.mem_cons_self, ih (fun y hy => h y (List.mem_cons_of_mem _ hy))]
+  rw [← hm s hcs, ← hm t hct, hv]
+
+/-- the evaluator's insertion by key, on elements that wrap a number whose key is the number itself
+    (plain numbers; quantities of one dimension), is the fragment's `insertSorted` -/
+theorem insertByKey_wrap (wrap : Num → Val) (x : Num) (l : List Num) :
+    insertByKey (wrap x, x) (l.map (fun y => (wrap y, y))) = (Arr.insertSorted x l).map (fun y => (wrap y, y)) := by
+  induction l with
+  | nil => rfl
+  | cons y ys ih =>
+    simp only [List.map_cons, insertByKey, Arr.insertSorted]
+    cases cmpLt x y with
+    | true => simp
+    | false => simp [ih]
+
+theorem foldl_insertByKey_wrap (wrap : Num → Val) (d : List Int) (xs acc : List Num) :
+    (xs.map (fun x => (wrap x, (x, d)))).foldl (fun acc (k : Val × Num × List Int) => insertByKey (k.1, k.2.1) acc)
+        (acc.map (fun y => (wrap y, y)))
+      = (xs.foldl (fun acc x => Arr.insertSorted x acc) acc).map (fun y => (wrap y, y)) := by
+  induction xs generalizing acc with
+  | nil => rfl
+  | cons x t ih => simp only [List.map_cons, List.foldl_cons, insertByKey_wrap, ih]
+
+theorem mapM_medianKey (wrap : Num → Val) (d : List Int) (hkey : ∀ x, medianKey (wrap x) = some (x, d)) (xs : List Num) :
+    (xs.map wrap).mapM (fun v => (medianKey v).map (fun k => (v, k))) = some (xs.map (fun x => (wrap x, (x, d)))) := by
+  induction xs with
+  | nil => rfl
+  | cons x t ih => simp [List.mapM_cons, hkey, ih]
+
+theorem getD_map_wrap (wrap : Num → Val) (l : List Num) (i : Nat) (h : i < l.length) :
+    (l.map wrap).getD i Val.none = wrap (l.getD i (.int 0)) := by
+  simp [List.getD_eq_getElem?_getD, List.getElem?_eq_getElem h]
+
+theorem sortNums_length (xs : List Num) : (Arr.sortNums xs).length = xs.length := (sortNums_perm_sorted xs).1.length_eq
+
+theorem sortNums_getD_mem (xs : List Num) (i : Nat) (h : i < xs.length) : (Arr.sortNums xs).getD i (.int 0) ∈ xs := by
+  have hi : i < (Arr.sortNums xs).length := by rw [sortNums_length]; exact h
+  rw [List.getD_eq_getElem?_getD, List.getElem?_eq_getElem hi]
+  exact (sortNums_perm_sorted xs).1.mem_iff.mp (List.getElem_mem hi)
+
+/-- a fragment outcome on numbers, wrapped (`wrap = Val.num` for plain numbers, `Val.qty · d` for quantities) -/
+def liftW (wrap : Num → Val) : Except Err Num → R Val
+  | .ok v => .ok (wrap v)
+  | .error e => .error (.err e)
+
+/-- **`median` through the unified evaluator, generically**: for array elements that wrap a number which
+    is their sort key, with `+` and `/ 2` on wrapped elements acting on the wrapped numbers, `array_median`
+    is the fragment's `Arr.arrayMedian` on the numbers, wrapped. -/
+theorem dispatch_median_wrap (n : Nat) (wrap : Num → Val) (d : List Int)
+    (hkey : ∀ x, medianKey (wrap x) = some (x, d))
+    (hadd : ∀ a b, dispatchV (n + 2) "+" [wrap a, wrap b] [] = liftW wrap (binop .add a b))
+    (hdiv : ∀ a, dispatchV (n + 2) "/" [wrap a, .num (.int 2)] [] = liftW wrap (binop .div a (.int 2)))
+    (hsimp : ∀ x, Canon x → simplifyVal (wrap x) = .ok (wrap x))
+    (xs : List Num) (hc : ∀ x ∈ xs, Canon x) :
+    dispatchV (n + 3) "median" [.arr (xs.map wrap)] [] = liftW wrap (Arr.arrayMedian xs) := by
+  rw [step1 (a := .arr (xs.map wrap)) median_table rfl]
+  simp only [BodyCode.run]
+  match xs, hc with
+  | [], _ => rfl
+  | [x], hc =>
+    have : Arr.arrayMedian [x] = .ok x := by
+      simp [Arr.arrayMedian, Arr.sortNums, Arr.insertSorted]
+    simp only [List.map_cons, List.map_nil, bArrMedian, this, liftW, bind, Except.bind, hsimp x (hc x (by simp))]
+  | a :: b :: t, hc =>
+    have hlen : (a :: b :: t).length = t.length + 2 := rfl
+    have hm := mapM_medianKey wrap d hkey (a :: b :: t)
+    have hs := foldl_insertByKey_wrap wrap d (a :: b :: t) []
+    simp only [List.map_nil] at hs
+    have hsl := sortNums_length (a :: b :: t)
+    unfold Arr.sortNums at hsl
+    simp only [List.map_cons] at hm hs
+    simp only [List.map_cons, bArrMedian, hm, List.headD_cons, List.any_cons, List.any_map, Function.comp_def,
+      bne_self_eq_false, Bool.false_or, List.any_eq_true, Bool.false_eq_true, and_false, exists_false, if_false, hs,
+      List.map_map, List.length_map, Arr.arrayMedian, List.isEmpty_cons, Arr.sortNums, hsl]
+    by_cases hev : (t.length + 2) % 2 = 0
+    · have h1 : (t.length + 2) / 2 - 1 < (Arr.sortNums (a :: b :: t)).length := by rw [sortNums_length]; simp only [hlen]; omega
+      have h2 : (t.length + 2) / 2 < (Arr.sortNums (a :: b :: t)).length := by rw [sortNums_length]; simp only [hlen]; omega
+      unfold Arr.sortNums at h1 h2
+      simp only [List.length_cons, hev, if_true, getD_map_wrap wrap _ _ h1, getD_map_wrap wrap _ _ h2, hadd]
+      cases hs1 : binop .add _ _ with
+      | error er => rfl
+      | ok s1 =>
+        simp only [liftW, bind, Except.bind, hdiv]
+        cases hs2 : binop .div s1 (.int 2) with
+        | error er => rfl
+        | ok r => simp only [hsimp r (binop_idem hs2)]
+    · have h2 : (t.length + 2) / 2 < (Arr.sortNums (a :: b :: t)).length := by rw [sortNums_length]; simp only [hlen]; omega
+      have hmem := sortNums_getD_mem (a :: b :: t) ((t.length + 2) / 2) (by simp only [hlen]; omega)
+      unfold Arr.sortNums at h2 hmem
+      simp only [List.length_cons, hev, if_false, getD_map_wrap wrap _ _ h2, liftW, bind, Except.bind]
+      exact hsimp _ (hc _ hmem)
+
+theorem liftN_eq_liftW (r : Except Err Num) : liftN r = liftW Val.num r := by cases r <;> rfl
+
+theorem simplifyVal_num_canon (x : Num) (h : Canon x) : simplifyVal (.num x) = .ok (.num x) := by
+  unfold Canon at h
+  simp only [simplifyVal, h, liftE, Except.map]
+
+theorem simplifyVal_qty_canon (x : Num) (d : List Int) (h : Canon x) : simplifyVal (.qty x d) = .ok (.qty x d) := by
+  unfold Canon at h
+  simp only [simplifyVal, h, liftE, Except.map]
+
+/-- **`median`** of an array of stored numbers is `Arr.arrayMedian` -/
+theorem dispatch_median (n : Nat) (xs : List Num) (hc : ∀ x ∈ xs, Canon x) :
+    dispatchV (n + 3) "median" [.arr (xs.map .num)] [] = liftN (Arr.arrayMedian xs) := by
+  rw [liftN_eq_liftW]
+  apply dispatch_median_wrap n Val.num zeroDim (fun _ => rfl) _ _ simplifyVal_num_canon xs hc
+  · intro a b; rw [← liftN_eq_liftW]; exact dispatch_add (n + 1) a b
+  · intro a; rw [← liftN_eq_liftW]; exact dispatch_div (n + 1) a (.int 2)
+
+theorem dimSub_zero (d : List Int) (k : Nat) (h : d.length ≤ k) : Qty.Dim.sub d (Qty.Dim.zero k) = d := by
+  unfold Qty.Dim.sub Qty.Dim.zero
+  induction d generalizing k with
+  | nil => simp
+  | cons x t ih =>
+    cases k with
+    | zero => simp at h
+    | succ k =>
+      simp only [List.replicate_succ, List.zipWith_cons_cons, Int.sub_zero, List.cons.injEq, true_and]
+      exact ih k (by simpa using h)
+
+/-- **`median`** of an array of quantities of one dimension is `Arr.arrayMedian` of the base-unit
+    magnitudes, with that dimension: the sort is by magnitude, the even case adds two quantities of the same
+    dimension and divides the sum by the plain number 2 (dimension unchanged) -/
+theorem dispatch_median_qty (n : Nat) (xs : List Num) (hc : ∀ x ∈ xs, Canon x) (d : List Int) (hd : d.length = nBase) :
+    dispatchV (n + 3) "median" [.arr (xs.map (fun m => Val.qty m d))] [] =
+      liftW (fun m => Val.qty m d) (Arr.arrayMedian xs) := by
+  apply dispatch_median_wrap n (fun m => Val.qty m d) d (fun _ => rfl) _ _ (fun x h => simplifyVal_qty_canon x d h) xs hc
+  · intro a b
+    have h := dispatch_qtyOp n .add a d b d
+    simp only [qopName] at h
+    rw [h]
+    simp only [Qty.qtyOp, bne_self_eq_false, Bool.false_eq_true, if_false, Qty.numOp]
+    cases binop .add a b <;> rfl
+  · intro a
+    have h := dispatch_applyOp n .div (.qty a d) (.num (.int 2))
+    simp only [qopName, ofQVal] at h
+    rw [h]
+    simp only [liftQ, Qty.applyOp, Qty.qtyOp, Qty.numOp, dimSub_zero d nBase (Nat.le_of_eq hd)]
+    cases binop .div a (.int 2) <;> rfl
+
+theorem canon_isCanon (q : Rat) : Canon (canon q) := simplify_idem (simplify_frac q)
+
+/-- a stored exact number is the canonical delivery of its value -/
+theorem canon_of_exact (x : Num) (hc : Canon x) (hx : x.isExact = true) : ∃ q, x = canon q := by
+  cases x with
+  | int k => exact ⟨(k : Rat), (canon_intCast k).symm⟩
+  | frac q =>
+    unfold Canon at hc
+    rw [simplify_frac] at hc
+    exact ⟨q, (Except.ok.inj hc).symm⟩
+  | flt f => simp [isExact] at hx
+
 end KaVerif.PipeArr
